@@ -22,8 +22,10 @@ from simnet_h2 import hx, hlist
 REDIRECTS = (301, 302, 303, 307, 308)
 
 STATUSES = [None, "0", "100", "101", "200", "204", "301", "302", "303", "304", "307", "308", "400", "404", "500"]
-UPGRADES = ["websocket", "WebSocket", "h2c, websocket", "websocket2", "", None]
-CONNECTIONS = ["Upgrade", "upgrade", "keep-alive, Upgrade", "close", None]
+# (each header is judged on ITS OWN tokens: `upgrade` listed in the Upgrade header does not make up for a Connection header
+#  without it, nor `websocket` in the Connection header for an Upgrade header without it)
+UPGRADES = ["websocket", "WebSocket", "h2c, websocket", "websocket2", "", None, "websocket, upgrade", "Upgrade, WebSocket", "upgrade"]
+CONNECTIONS = ["Upgrade", "upgrade", "keep-alive, Upgrade", "close", None, "keep-alive", "websocket", "websocket, upgrade"]
 ACCEPTS = ["right", "wrong", None, "prev", "truncated", "padded", "caseswap"]
 SUBS = [(None, None), (None, ["chat"]), ("chat", ["chat"]), ("CHAT", ["chat", "superchat"]),
         ("other", ["chat"]), ("chat", None), ("", ["chat"]),
